@@ -7,7 +7,7 @@ use nundb::bo::*;
 use std::collections::HashMap;
 use std::sync::Arc;
 
-fn fnv(data: &[u8]) -> u64 {
+pub fn fnv(data: &[u8]) -> u64 {
     fnv64(data)
 }
 
